@@ -86,6 +86,9 @@ pub struct OpenCase {
     pub wrong_fl: bool, // expect another freelist kind
     pub wrong_magic: bool,
     pub create: bool,
+    /// read-only opens only: leftover flags of a "writable" Options value (bit 0 write, 1 truncate, 2 append, 3 create_new);
+    /// map / map_copy_read_only are documented to clear them
+    pub leftover: u8,
 }
 
 fn open_case<A: Ar>(base: &Base, oc: &OpenCase, path: &PathBuf) -> std::io::Result<A> {
@@ -104,6 +107,20 @@ fn open_case<A: Ar>(base: &Base, oc: &OpenCase, path: &PathBuf) -> std::io::Resu
     };
     if oc.create {
         opts = opts.with_create(true);
+    }
+    if oc.mode >= 2 {
+        if oc.leftover & 1 != 0 {
+            opts = opts.with_write(true);
+        }
+        if oc.leftover & 2 != 0 {
+            opts = opts.with_write(true).with_truncate(true);
+        }
+        if oc.leftover & 4 != 0 {
+            opts = opts.with_append(true);
+        }
+        if oc.leftover & 8 != 0 {
+            opts = opts.with_create_new(true);
+        }
     }
     unsafe {
         match oc.mode {
@@ -156,7 +173,7 @@ fn one_case<A: Ar>(base: &Base, file: &[u8], oc: &OpenCase, path: &PathBuf, what
     let r = open_case::<A>(base, oc, path);
     let got_ok = r.is_ok();
     let mode_name = ["map_mut", "map_copy", "map", "map_copy_read_only"][oc.mode as usize % 4];
-    let desc = format!("{} -> {}(capacity {}, expected freelist {}, expected magic {})", what, mode_name, ["absent", "same", "larger"][oc.capk as usize % 3], if oc.wrong_fl { "wrong" } else { "right" }, if oc.wrong_magic { "wrong" } else { "right" });
+    let desc = format!("{} -> {}(capacity {}, expected freelist {}, expected magic {}, leftover open flags {:#06b})", what, mode_name, ["absent", "same", "larger"][oc.capk as usize % 3], if oc.wrong_fl { "wrong" } else { "right" }, if oc.wrong_magic { "wrong" } else { "right" }, oc.leftover);
     match r {
         Ok(a) => {
             out.accepted += 1;
@@ -201,7 +218,7 @@ fn all_cases(rng: &mut Rng, full: bool) -> Vec<OpenCase> {
             if !full && rng.chance(1, 2) {
                 continue;
             }
-            v.push(OpenCase { mode, capk, wrong_fl: rng.chance(1, 5), wrong_magic: rng.chance(1, 6), create: rng.chance(1, 4) });
+            v.push(OpenCase { mode, capk, wrong_fl: rng.chance(1, 5), wrong_magic: rng.chance(1, 6), create: rng.chance(1, 4), leftover: if rng.chance(1, 3) { rng.below(16) as u8 } else { 0 } });
         }
     }
     v
@@ -289,7 +306,7 @@ fn readonly_session<A: Ar>(base: &Base, path: &PathBuf, rng: &mut Rng, out: &mut
         return;
     }
     let mode = 2 + rng.below(2) as u8;
-    let oc = OpenCase { mode, capk: rng.below(3) as u8, wrong_fl: false, wrong_magic: false, create: false };
+    let oc = OpenCase { mode, capk: rng.below(3) as u8, wrong_fl: false, wrong_magic: false, create: false, leftover: if rng.chance(1, 3) { rng.below(16) as u8 } else { 0 } };
     let mut a: A = match open_case::<A>(base, &oc, path) {
         Ok(a) => a,
         Err(e) => {
